@@ -520,32 +520,104 @@ def _gad_build(d):
 CONTRACTS["ufo2ft.filters.propagateAnchors:_get_anchor_data#any-components"].runtime = Runtime(_gad_cases, _gad_build)
 
 _HASMARK = "any(b.name == '_' + {a}.name for b in glyphSet.glyphs[component.baseGlyph].anchors)"
+
+
+class _ProbeName(Val):
+    """An ARBITRARY anchor name: a free constant of sort String that the code never sees.  Every obligation of the contract below is proved
+    with this constant unconstrained, i.e. for every name (generalisation on constants) — the statement "for all keys k of anchor_data"
+    without a quantifier over the dict (which drags the dict's key-order axioms and an ∃ under a ∀ into every obligation: the earlier
+    quantified form of this contract was discharged only in some runs).  Natively (run-time cross-check) it stands for the key "top";
+    the all-keys statement is evaluated there by the bounded clause `every-key`."""
+
+    _NATIVE = "top"
+
+    def __call__(self):  # (callable => the run-time side keeps the binding)
+        return self
+
+    def __hash__(self):
+        return hash(self._NATIVE)
+
+    def __eq__(self, o):
+        return o == self._NATIVE if isinstance(o, str) else NotImplemented
+
+    def __radd__(self, o):
+        return o + self._NATIVE
+
+
+_PROBE = _ProbeName(STR, z3.String("c15_probe_name"))
+
+
+def _carried_d(c, a):
+    """_carried written with the symbol dot2 (contracts/c02.py: dot2(a, b, c, d) = a*b + c*d; a product under a quantifier makes the
+    solvers unreliable, so the quantified clause carries the symbol and the arithmetic is done once, at the hint, on ground terms)"""
+    return f"(dot2({c}.t_xx, {a}.x, {c}.t_yx, {a}.y) + {c}.t_dx, dot2({c}.t_xy, {a}.x, {c}.t_yy, {a}.y) + {c}.t_dy)"
+
+
+_MOVED_TO = "any(a.name == {k} and " + _HASMARK.format(a="a") + " and anchor_data[{k}] == " + _carried_d("component", "a") + " for a in glyphSet.glyphs[component.baseGlyph].anchors)"
+
 contract(
     "ufo2ft.filters.propagateAnchors:_adjust_anchors",
     props=["C15"],
     params={"anchor_data": _AD, "glyphSet": Ref("C15_GlyphSet"), "component": Ref("C15_AComponent")},
+    globals={"probe": _PROBE},
     modifies=["anchor_data"],
     requires=["component.baseGlyph in glyphSet.glyphs"],
     ensures={
-        # never adds or removes a name ...
-        "same-names": "all(k in old(anchor_data) for k in anchor_data) and all(k in anchor_data for k in old(anchor_data))",
-        # ... a value only changes to where the mark component carries its own base anchor of that name (mark must have `_name` too)
-        "moved-only-to-carried-position": "all(anchor_data[k] == old(anchor_data)[k] or any(a.name == k and " + _HASMARK.format(a="a")
-        + " and anchor_data[k] == " + _carried("component", "a") + " for a in glyphSet.glyphs[component.baseGlyph].anchors) for k in anchor_data)",
+        # (for the arbitrary name `probe`, see _ProbeName)  never adds or removes a name ...
+        "same-names": "(probe in anchor_data) == (probe in old(anchor_data))",
+        # ... a value only changes to where the mark component carries its own base anchor of that name (mark must have `_name` too),
+        # under the component's FULL matrix
+        "moved-only-to-carried-position": "implies(probe in anchor_data, anchor_data[probe] == old(anchor_data)[probe] or " + _MOVED_TO.format(k="probe") + ")",
     },
-    canaries={"never-moves": "all(anchor_data[k] == old(anchor_data)[k] for k in anchor_data)"},
+    # the same two statements for EVERY key, evaluated natively on real glyph objects
+    bounded_ensures={
+        "every-key": "all(k in old(anchor_data) for k in anchor_data) and all(k in anchor_data for k in old(anchor_data)) and "
+                     "all(anchor_data[k] == old(anchor_data)[k] or " + _MOVED_TO.format(k="k") + " for k in anchor_data)",
+    },
+    canaries={"never-moves": "implies(probe in anchor_data, anchor_data[probe] == old(anchor_data)[probe])"},
     loops={
         "for anchor in glyph.anchors": Loop(
             index="m0", seq="AS",
             invariants={
-                "same-names": "all(k in AD0 for k in anchor_data) and all(k in anchor_data for k in AD0)",
-                "moved": "all(anchor_data[k] == AD0[k] or any(AS[q].name == k and " + _HASMARK.format(a="AS[q]")
-                + " and anchor_data[k] == " + _carried("component", "AS[q]") + " for q in range(m0)) for k in anchor_data)",
+                "same-names": "(probe in anchor_data) == (probe in AD0)",
+                # wq: position of the anchor that moved `probe` last, -1 if none did (ghost witness for the ∃ of the postcondition)
+                "witness-range": "-1 <= wq and wq < m0",
+                "witness-name": "implies(wq >= 0, probe in anchor_data and AS[wq].name == probe)",
+                "witness-mark": "implies(wq >= 0, " + _HASMARK.format(a="AS[wq]") + ")",
+                "witness-value": "implies(wq >= 0, probe in anchor_data and anchor_data[probe] == " + _carried_d("component", "AS[wq]") + ")",
+                "untouched": "implies(wq < 0 and probe in anchor_data, anchor_data[probe] == AD0[probe])",
             },
         )
     },
-    ghost_vars={"AD0": (_AD, "anchor_data")},
+    ghost_vars={"AD0": (_AD, "anchor_data"), "wq": (INT, "-1")},
+    ghost={"anchor_data[anchor.name] = t.transformPoint((anchor.x, anchor.y))": ["wq = m0 if anchor.name == probe else wq"]},
+    hints={"anchor_data[anchor.name] = t.transformPoint((anchor.x, anchor.y))": [
+        "anchor == AS[m0] and anchor_data[anchor.name] == " + _carried("component", "anchor"),  # the arithmetic: transformPoint = full affine map
+        "anchor_data[anchor.name] == " + _carried_d("component", "anchor"),  # ... and the same through the symbol dot2
+        _HASMARK.format(a="anchor"),
+    ]},
 )
+
+
+def _aa_cases(rng, n):
+    out = []
+    for d in _gad_cases(rng, n):
+        # anchor data as _get_anchor_data leaves it for the base components, then a MARK component (its base glyph carries `_top`/`top` ...)
+        for g in d["glyphs"].values():
+            if rng.random() < 0.6:
+                g["anchors"].append(["_" + rng.choice(["top", "bottom"]), rng.randrange(0, 300), rng.randrange(0, 300)])
+        d["before"] = {k: [rng.randrange(0, 500) + 0.5, rng.randrange(0, 700)] for k in rng.sample(["top", "bottom", "ogonek", "x"], rng.randint(0, 4))}
+        out.append(d)
+    return out
+
+
+def _aa_build(d):
+    f = rtlib.build_ufo({"glyphs": d["glyphs"]}, d["ufolib"])
+    gs = {g.name: g for g in f}
+    return {"anchor_data": {k: tuple(v) for k, v in d["before"].items()}, "glyphSet": gs, "component": list(gs["probe"].components)[0]}
+
+
+CONTRACTS["ufo2ft.filters.propagateAnchors:_adjust_anchors"].runtime = Runtime(_aa_cases, _aa_build)
 
 # =====================================================================================================
 # decomposeTransformedComponents: a component counts as transformed iff its 2x2 part is not the identity (offsets do not count);
